@@ -8,8 +8,9 @@ import DnsModel.Generated.TextPlans
 import DnsProofs.C05Txt
 import DnsProofs.C03Valid
 import DnsProofs.C01Opt
+import DnsProofs.C05Hex
 namespace Dns.C05X
-open Dns Dns.Lex Dns.TxtParse Dns.TextCodec Dns.C07 Dns.C06T Dns.C05L Dns.C05T Dns.C03
+open Dns Dns.Lex Dns.TxtParse Dns.TextCodec Dns.C07 Dns.C06T Dns.C05L Dns.C05T Dns.C03 Dns.C05H
 
 /-! ### decimal numbers -/
 
@@ -218,6 +219,9 @@ def kindEq : TStep → TStep → Bool
   | .uint a, .uintTtl _ => a == 32
   | .name, .name => true
   | .endStr false, .tokStr => true
+  | .hexGroups 12 2 45 false, .euiTok 6 => true
+  | .hexGroups 16 2 45 false, .euiTok 8 => true
+  | .hexGroups 16 4 58 _, .nodeId => true
   | _, _ => false
 
 /-- the print plan `P` (from `String()`) and the parse plan `Q` (from `parse`) describe the same RDATA text: single-token
@@ -244,6 +248,8 @@ def FieldWF : TStep → TVal → Prop
   | .uintTtl _, .n v => v < 2 ^ 32
   | .name, .s t => ∃ ls, WireNameOK ls ∧ t = presentOf ls
   | .tokStr, .s t => RestWF' t
+  | .euiTok g, .n v => v < 2 ^ (8 * g)
+  | .nodeId, .n v => v < 2 ^ 64
   | _, _ => False
 
 /-- the rest-of-entry string: one non-empty word of plain octets (hex, base64 and the like) -/
@@ -307,6 +313,30 @@ theorem field_word (p q : TStep) (v : TVal) (hk : kindEq p q = true) (hw : Field
     refine ⟨t, fun vs => by simp [printStep], ⟨hw.1, plain_wordOK t hw.2 hw.1⟩, ?_⟩
     intro tk ts Q acc ht he hval
     simp only [parsePlan, headTok, ht, he, hval, Bool.false_eq_true, false_or, ne_eq, not_true_eq_false, ↓reduceIte, List.tail_cons]
+  case hexGroups.euiTok d g sep up k =>
+    cases v <;> simp only [FieldWF] at hw
+    rename_i n
+    have hcase : (d = 12 ∧ g = 2 ∧ sep = 45 ∧ up = false ∧ k = 6) ∨ (d = 16 ∧ g = 2 ∧ sep = 45 ∧ up = false ∧ k = 8) := by
+      split at hk <;> simp_all
+    rcases hcase with ⟨rfl, rfl, rfl, rfl, rfl⟩ | ⟨rfl, rfl, rfl, rfl, rfl⟩
+    · refine ⟨printHexGroups 12 2 45 false n, fun vs => rfl,
+        ⟨eui48_ne_nil n, plain_wordOK _ (printHex_plain 12 2 45 false n (by decide)) (eui48_ne_nil n)⟩, ?_⟩
+      intro t ts Q acc ht he _hval
+      simp only [parsePlan, headTok, ht, he, Bool.false_eq_true, ↓reduceIte, eui48_roundtrip n (by simpa using hw), List.tail_cons]
+    · refine ⟨printHexGroups 16 2 45 false n, fun vs => rfl,
+        ⟨eui64_ne_nil n, plain_wordOK _ (printHex_plain 16 2 45 false n (by decide)) (eui64_ne_nil n)⟩, ?_⟩
+      intro t ts Q acc ht he _hval
+      simp only [parsePlan, headTok, ht, he, Bool.false_eq_true, ↓reduceIte, eui64_roundtrip n (by simpa using hw), List.tail_cons]
+  case hexGroups.nodeId d g sep up =>
+    cases v <;> simp only [FieldWF] at hw
+    rename_i n
+    have hcase : d = 16 ∧ g = 4 ∧ sep = 58 := by
+      split at hk <;> simp_all
+    obtain ⟨rfl, rfl, rfl⟩ := hcase
+    refine ⟨printHexGroups 16 4 58 up n, fun vs => rfl,
+      ⟨nodeId_ne_nil up n, plain_wordOK _ (printHex_plain 16 4 58 up n (by decide)) (nodeId_ne_nil up n)⟩, ?_⟩
+    intro t ts Q acc ht he _hval
+    simp only [parsePlan, headTok, ht, he, Bool.false_eq_true, ↓reduceIte, nodeId_roundtrip up n hw, List.tail_cons]
   case name.name =>
     cases v <;> simp only [FieldWF] at hw
     obtain ⟨ls, hok, rfl⟩ := hw
